@@ -257,7 +257,19 @@ class Kitten(Pet):
 @dataclass
 class Puppy(Pet):
     n: int = 1
-DISC_SAMPLES = [(Disc, [Cat(1), Dog(2), Dog(3, "hound")]), (Pet, [Kitten(1), Puppy(2)]), (Union[Kitten, Puppy], [Kitten(), Puppy()]), (List[Pet], [[Kitten(1), Puppy(2)]])]
+class Hue(Enum):
+    RED = "r"
+    BLUE = "b"
+class Lvl(Enum):
+    LOW = 1
+    HIGH = 2
+@dataclass
+class Shipment:
+    items: collections.deque = field(default_factory=collections.deque)
+# literals of enum members (serialized by value), alone and mixed with plain values; typed deques whose items need their type
+DISC_SAMPLES = [(Literal[Hue.RED, Hue.BLUE], [Hue.RED, Hue.BLUE]), (Literal[Lvl.LOW, "auto"], [Lvl.LOW, "auto"]),
+                (typing.Deque[Hue], [collections.deque([Hue.RED, Hue.BLUE])]), (typing.Deque[Dog], [collections.deque([Dog(1), Dog(2, "hound")])]),
+                (Disc, [Cat(1), Dog(2), Dog(3, "hound")]), (Pet, [Kitten(1), Puppy(2)]), (Union[Kitten, Puppy], [Kitten(), Puppy()]), (List[Pet], [[Kitten(1), Puppy(2)]])]
 def contexts(tp):
     Holder = dataclasses.make_dataclass("Holder", [("f", tp), ("g", Optional[tp], None)])
     return [("T", tp, lambda v: v), ("List[T]", List[tp], lambda v: [v, v]), ("Optional[T]", Optional[tp], lambda v: v),
